@@ -433,7 +433,14 @@ def run(model, col, tier):
                 looped = any(e.kind == "loop" and e.val == 1 for e in evs)
                 if looped and pushes == 1:
                     depth += 1
+                elif not looped and any(e.kind == "loop" for e in evs):
+                    continue  # the zero-iteration branch of the operand loop: a binary instruction always has its two operands
                 elif not looped:
+                    # a path that emits without pushing the operands computes the result in the generator: what it writes as
+                    # an immediate is not limited to the i32 range and ignores wrap-around
+                    col.check(not seq, "R07.6", f"{GEN}::{hname} every emitting path evaluates its operands", "no instruction is emitted on a path that skips the operand loop",
+                              f"a path emits {seq} without pushing the instruction's operands: the result is computed at compile time with unbounded integers, so an immediate outside "
+                              "the i32 range (or a wrapped result) is written", GEN, h)
                     continue
                 col.check(depth == 0 and seq[-1] == "local.set", "R07.6", f"{GEN}::{hname} stack template", f"push, push, op, local.set ({seq})",
                           f"emitted template {seq} leaves {depth} value(s) on the stack", GEN, h)
@@ -444,6 +451,23 @@ def run(model, col, tier):
                 val = any(" ".join(unparse(e.node).split()) == f"{h.args.args[1].arg}.Value" and e.val for e in evs if e.kind == "cond")
                 col.check(seq[-1:] == ["return"] and depth == (1 if val else 0), "R07.6", f"{GEN}::{hname} stack template [{'value' if val else 'void'}]",
                           f"{seq}", f"emitted template {seq} (depth {depth}) does not push exactly the result before `return`", GEN, h)
+    # the generator translates the instruction classes the templates above cover and refuses the rest (v_Default raises): a
+    # handler for another class emits code no rule here has looked at; and the function handler itself emits nothing - the body
+    # is the instructions' templates
+    genv = next((c_ for c_ in model.classes.values() if c_.file == GEN and "v_Function" in c_.methods and "v_Default" in c_.methods), None)
+    if genv is None:
+        raise AnchorMissing(f"{GEN}: generator visitor")
+    covered = {"v_Default", "v_Generic", "v_Visit", "v_Function", "v_BinaryInstruction", "v_VariableAccessInstruction", "v_ReturnInstruction"}
+    extra = sorted(h_ for h_ in genv.methods if h_.startswith("v_") and h_ not in covered
+                   and any(isinstance(c_, ast.Call) and last_attr(c_) in ("AddInstruction", "Instruction", "AddLocal") for c_ in ast.walk(genv.methods[h_])))
+    col.check(not extra, "R07.6", f"{GEN}::{genv.name} emits only through covered templates", f"emitting handlers: {sorted(covered - {'v_Default', 'v_Generic', 'v_Visit'})}",
+              f"handler(s) {extra} emit instructions for a class the stack / type templates do not cover: whether the emitted sequence type-checks (operand types, signedness of the "
+              "conversion, stack depth) is not established", GEN, genv.methods[extra[0]] if extra else genv.node)
+    vfw = genv.methods["v_Function"]
+    own_emits = [c_ for c_ in ast.walk(vfw) if isinstance(c_, ast.Call) and last_attr(c_) in ("AddInstruction",)]
+    col.check(not own_emits, "R07.6", f"{GEN}::v_Function emits nothing of its own", "the function body consists of the instructions' templates only",
+              f"`{' '.join(unparse(own_emits[0]).split())[:70] if own_emits else ''}`: the function handler appends an instruction that no IR instruction stands for - its type need not be the "
+              "function's result type, and it is unreachable or stack-unbalancing after a return", GEN, own_emits[0] if own_emits else vfw)
     # ---------------- R07.7 ------------------------------------------------------
     from . import c19
     from ..report import Collector
